@@ -338,7 +338,9 @@ void op_prbat(toks *t)
             if (!r2) { cjv_violation("roundtrip/reparse-null", "fmt=%d: printed text does not parse back", fmt); continue; }
             if (wf_check(r2, WF_ROOT, "reparse") == 0) {
                 char *u2, *f2;
-                if (!tree_equiv(s, r2, mode & 1, why, sizeof why)) cjv_violation("roundtrip/value-differs", "fmt=%d: %s", fmt, why);
+                int eqv;
+                WALK_BEGIN(); eqv = tree_equiv(s, r2, mode & 1, why, sizeof why); WALK_END();
+                if (!eqv) cjv_violation("roundtrip/value-differs", "fmt=%d: %s", fmt, why);
                 u2 = lib_print(r2, 0); f2 = lib_print(r2, 1);
                 if (!u2 || !f2) cjv_violation("print/null-result", "re-parsed tree failed to print");
                 else {
@@ -476,10 +478,12 @@ void op_dupx(toks *t)
     if (!d) { rlog("dupx nil"); return; }
     if (wf_check(d, WF_ROOT, "duplicate") == 0 && s) {
         collect_steps = 0;
+        WALK_BEGIN();
         collect(&src, s, 0);
         qsort(src.v, src.n, sizeof *src.v, ps_cmp);
         dup_bad = 0; collect_steps = 0;
         dup_compare(s, d, &src);
+        WALK_END();
         if (!dup_bad) {
             char *a = lib_print(s, 0), *b = lib_print(d, 0);
             if (a && b && strcmp(a, b) != 0) cjv_violation("dup/text-differs", "copy prints differently from the source");
@@ -526,18 +530,27 @@ void op_cmpx(toks *t)
 
 void op_deepchain(toks *t)
 {
-    /* deepchain d kind depth : depth nested containers built through the public API */
+    /* deepchain d kind depth [elder] : depth nested containers built through the public API; with
+     * elder=1 every level holds a scalar in front of the nested container (the deep branch is then
+     * never the first child) */
     cJSON *cur = NULL;
     long depth, i;
-    int obj;
+    int obj, elder;
     if (t->n < 4) cjv_fatal("deepchain d kind depth");
     obj = t->tok[2][0] == 'o';
     depth = tk_int(t->tok[3]);
+    elder = t->n > 4 ? (int)tk_int(t->tok[4]) : 0;
     for (i = 0; i < depth; i++) {
         cJSON *outer;
         if (obj) { LIB_BEGIN("cJSON_CreateObject"); outer = cJSON_CreateObject(); LIB_END(); }
         else { LIB_BEGIN("cJSON_CreateArray"); outer = cJSON_CreateArray(); LIB_END(); }
         if (!outer) cjv_fatal("create failed in deepchain");
+        if (cur && elder) {
+            cJSON *e;
+            LIB_BEGIN("cJSON_CreateString"); e = cJSON_CreateString("elder"); LIB_END();
+            if (obj) { LIB_BEGIN("cJSON_AddItemToObject"); cJSON_AddItemToObject(outer, "e", e); LIB_END(); }
+            else { LIB_BEGIN("cJSON_AddItemToArray"); cJSON_AddItemToArray(outer, e); LIB_END(); }
+        }
         if (cur) {
             cJSON_bool ok;
             if (obj) { LIB_BEGIN("cJSON_AddItemToObject"); ok = cJSON_AddItemToObject(outer, "k", cur); LIB_END(); }
